@@ -302,8 +302,53 @@ fn gen_pbd(rng: &mut Rng, out: &mut dyn Write, n_files: usize) {
         qs.push((ids[rng.below(n as u64) as usize], 9999));
         qs.push((9999, ids[0]));
         let _ = fi;
-        for (a, b) in qs {
+        // the same forest in a non-canonical layout (`pbdl`, Spec/PbdLayout.lean): blocks stored in another
+        // order behind filler bytes, a block nobody points at, non-zero reserved bytes, a trailer.
+        // Forked stream: the `pbd` cases stay what they were.
+        let mut prng = Rng::new(rng.0, "C16-pbdl");
+        let mut placed = 0;
+        for (qi, (a, b)) in qs.iter().enumerate() {
             writeln!(out, "pbd {} {} {} {}", it, lk, a, b).unwrap();
+            // three per file, spread over the query list, never the trivial `from == to`
+            if a == b || placed >= 3 || (qi % 2 == 1 && qs.len() > 6) {
+                continue;
+            }
+            placed += 1;
+            let mut order: Vec<usize> = (0..n).collect();
+            if prng.chance(3, 4) {
+                for i in (1..n).rev() {
+                    order.swap(i, prng.below(i as u64 + 1) as usize);
+                }
+            }
+            if prng.chance(1, 3) {
+                // a second copy of some block: the items keep pointing at the first one
+                let dup = order[prng.below(n as u64) as usize];
+                let at = prng.below(order.len() as u64 + 1) as usize;
+                order.insert(at, dup);
+            }
+            let stored: Vec<String> = order
+                .iter()
+                .map(|i| {
+                    let g = match prng.below(8) {
+                        0..=2 => 0,
+                        3..=5 => prng.range(1, 3),
+                        6 => prng.range(4, 16),
+                        _ => prng.range(17, 70),
+                    } as usize;
+                    let fill: Vec<u8> = match prng.below(3) {
+                        0 => vec![0u8; g],
+                        1 => vec![0xFFu8; g],
+                        _ => prng.bytes(g),
+                    };
+                    format!("{}:{}", i, hex(&fill))
+                })
+                .collect();
+            let reserved: Vec<String> = (0..n)
+                .map(|_| if prng.chance(1, 2) { hex(&f32_edge(&mut prng).to_le_bytes()) } else { hex(&prng.bytes(4)) })
+                .collect();
+            let tl = prng.below(9) as usize;
+            let trailer = prng.bytes(tl);
+            writeln!(out, "pbdl {} {} {} {} {} {} {}", it, lk, a, b, stored.join(";"), reserved.join(";"), hex(&trailer)).unwrap();
         }
     }
 }
